@@ -11,6 +11,31 @@ from translate import schema as TS
 
 MODULES = ["saml2.saml", "saml2.samlp", "saml2.md", "saml2.xmldsig", "saml2.xmlenc"]
 
+# Rows for which OrderCompat is NOT claimed (hand-maintained; everything else must pass `C13_order_table`,
+# so a class table that stops following its XSD sequence breaks the build instead of dropping out silently).
+EXCLUDED = {
+    "saml.AttributeStatement": "XSD: choice(Attribute|EncryptedAttribute)+ ; the class lets both members be empty",
+    "saml.AuthnContext": "nested choice/sequence content model",
+    "saml.Evidence": "XSD: choice(...)+ ; the class lets all members be empty",
+    "saml.Subject": "nested choice/sequence content model",
+    "saml.SubjectConfirmation": "optional choice of three identifiers (at most one); the class allows one of each",
+    "samlp.Extensions": "XSD: any ##other, at least one; the class has no members (extension elements only)",
+    "md.Extensions": "XSD: any ##other, at least one; the class has no members (extension elements only)",
+    "samlp.LogoutRequest": "choice(BaseID|NameID|EncryptedID) exactly one; the class allows one of each",
+    "samlp.ManageNameIDRequest": "two exactly-one choices; the class allows one of each member",
+    "samlp.NameIDMappingRequest": "choice(BaseID|NameID|EncryptedID) exactly one; the class allows one of each",
+    "samlp.NameIDMappingResponse": "choice(NameID|EncryptedID) exactly one; the class allows one of each",
+    "samlp.RequestedAuthnContext": "choice(AuthnContextClassRef+ | AuthnContextDeclRef+)",
+    "md.EntitiesDescriptor": "XSD: choice(EntityDescriptor|EntitiesDescriptor)+ ; the class lets both be empty",
+    "md.EntityDescriptor": "choice(role descriptors+ | AffiliationDescriptor)",
+    "xmldsig.DSAKeyValue": "nested optional sequences", "xmldsig.KeyValue": "choice with wildcard, exactly one",
+    "xmldsig.Object": "wildcard-only content", "xmldsig.PGPData": "choice of sequences", "xmldsig.SPKIData": "repeated sequence with wildcard",
+    "xmldsig.SignatureProperty": "choice with wildcard, at least one", "xmldsig.X509Data": "repeated choice, at least one",
+    "xmlenc.AgreementMethod": "wildcards between members", "xmlenc.CipherData": "choice(CipherValue|CipherReference) exactly one",
+    "xmlenc.CipherReference": "optional choice", "xmlenc.EncryptionProperty": "wildcard choice, at least one",
+    "xmlenc.ReferenceList": "choice(DataReference|KeyReference)+",
+}
+
 
 def split_tag(tag):
     if tag.startswith("{"):
@@ -75,15 +100,21 @@ def qn_term(t, ns, local):
 def render_rows(t, rows):
     L = ["/-", "  GENERATED by harness/translate/classrows.py from the class tables of %s — do not edit." % ", ".join(MODULES),
          "-/", "import PysamlModel.Model.ClassOrder", "import PysamlModel.Gen.Schema", "namespace Gen.ClassRows",
-         "open Validate", "", "def rows : List ClassRow := ["]
-    items = []
-    for r in rows:
+         "open Validate", ""]
+
+    def item(r):
         ms = ", ".join("{ tag := %s, min := %d, max := %s }" % (
             qn_term(t, m["ns"], m["local"]), m["min"], "none" if m["max"] is None else "some %d" % m["max"])
             for m in r["members"])
-        items.append("  { label := %s, elem := %d, ps := Gen.Schema.p%d, members := [%s] }" % (
-            TS.lean_str(r["label"]), r["elem"], r["type_idx"], ms))
-    L.append(",\n".join(items))
+        return "  { label := %s, elem := %d, ps := Gen.Schema.p%d, members := [%s] }" % (
+            TS.lean_str(r["label"]), r["elem"], r["type_idx"], ms)
+
+    L.append("/-- rows for which OrderCompat is claimed (checked by `C13_order_table`) -/")
+    L.append("def rows : List ClassRow := [")
+    L.append(",\n".join(item(r) for r in rows if r["label"] not in EXCLUDED))
+    L += ["]", "", "/-- rows outside the claim (content model is not a plain sequence, or the class is laxer than the XSD) -/",
+          "def excluded : List ClassRow := ["]
+    L.append(",\n".join("  /- %s -/\n%s" % (EXCLUDED[r["label"]], item(r)) for r in rows if r["label"] in EXCLUDED))
     L += ["]", "", "end Gen.ClassRows", ""]
     return "\n".join(L)
 
